@@ -46,7 +46,9 @@ def parseOp (t : Str) : Option Req :=
       | _, _ => none
     | _, _ => none
   | ['J', '@', c] => (parseCtx c).map (fun c' => .inCtx c' .jobs)
-  | 'L' :: _ => some (.op (.launch 1 false))
+  | 'L' :: 'x' :: _ => some (.op (.launch 1 false 3))     -- the job's body ends with status 3
+  | 'L' :: 'y' :: _ => some (.op (.launch 1 false 42))
+  | 'L' :: _ => some (.op (.launch 1 false 0))
   | 'F' :: r => (parseNat? r).map (fun k => .op (.finish k))
   | ['P'] => some (.op .poll)
   | 'W' :: r => (parseSched r).map (fun s => .op (.waitAll s))
@@ -98,9 +100,8 @@ def extraOf (s : St) (r : Req) (s' : St) : Str :=
     | none => "none".toList
   | .jobs => if s.table.isEmpty then "none".toList else joinWith [','] (s.table.map showJobShort)
   | .op (.waitAll _) => if s'.stuck then "blocked".toList else "ok".toList
-  | .op (.waitSpec sp _) =>
-    if s'.stuck then "blocked".toList
-    else if (resolveIdx s.table sp).isSome then "ok".toList else "fail".toList
+  | .op (.waitSpec _ _) =>
+    if s'.stuck then "blocked".toList else "st".toList ++ natToStr s'.lastWait
   | _ => ['-']
 
 /-- state after the request and the op-specific extra field -/
